@@ -175,11 +175,11 @@ class Run:
             exc = e
         except Exception as e:  # pylint: disable=broad-exception-caught
             exc = e
-        if kind == 'raw' and not allowed and exc is None:
-            self.bad.append(('rejected-without-side-effects', f'{op} is not allowed in state {before[0]} with steps {outstanding} outstanding, but was not refused (now {after[:2]})'))
         if outstanding and kind != 'complete':
             self.nontrivial = True
         after = sim.snapshot()
+        if kind == 'raw' and not allowed and exc is None:
+            self.bad.append(('rejected-without-side-effects', f'{op} is not allowed in state {before[0]} with steps {outstanding} outstanding, but was not refused (now {after[:2]})'))
         # (1) edges
         for src, dst in sim.transitions[self.seen:]:
             res.count('transitions_checked')
